@@ -56,7 +56,7 @@ def curated():
     D.append(decl("include_fixed", [
         svc(0x1840, [ch(0x2A40, "bound", 2, ["notify"]), ch(0x2A41, "bound", 2, handle=0x0020)], includes=[1], handle=0x0005),
         svc(U(6), [ch(None, "bound", 4)], primary=False, handle=0x0040),
-        svc(0x1841, [ch(0x2A42, "bound", 2, ["indicate"], handles=(0x0062, 0x0064, 0x0068), descs=[(0x2904, bytes([1, 2, 3, 4, 5, 6, 7]))])],
+        svc(0x1841, [ch(0x2A42, "bound", 2, ["indicate"], handles=(0x0063, 0x0064, 0x0068), descs=[(0x2904, bytes([1, 2, 3, 4, 5, 6, 7]))])],
             includes=[1, 0], handle=0x0060),
     ], mtu=30, wq=64))
     # 5. every encryption option placement
